@@ -12,12 +12,15 @@ ORIGIN of every value placed into such a string:
   CODE   text chosen by the library: constants, method names, random suffixes, type names
          rendered by type_name()/get_type_name_identifier(), generated sub-expressions
          returned by the registries, Python identifiers (dataclass field names, named-tuple
-         field names: both are identifiers by construction; enum member names: see NAME_NOTE).
+         field names: both are identifiers by construction).  Enum member NAMES are DATA
+         (functional-API enums accept any string): `literal_value.name` is an attribute of a
+         Literal value and is classified DATA by propagation.
   QUOTED text that contains data only inside repr()/ascii() literals.
   UNK    anything the rules below do not cover  (FAIL CLOSED: reported as kind KUnknown).
 
 For each DATA value placed into a string it records one row: kind KRepr (`!r`, repr(), map(repr,..)),
-KAscii (`!a`, ascii()), KRaw (anything else) and the static text before/after the value on the
+KAscii (`!a`, ascii()), KGuardedIdent (raw, but inside `if X.isidentifier() and not iskeyword(X) and
+<NFKC/ASCII test on X>:`), KRaw (anything else) and the static text before/after the value on the
 generated line ("\\n" = line start / end; \\x02 = a CODE placeholder; \\x01 = unknown context).
 The Coq theorem C16_sites is `forallb site_ok splice_sites = true`.
 
@@ -42,13 +45,16 @@ FILES = [
     "mashumaro/core/meta/types/pack.py",
     "mashumaro/core/meta/types/unpack.py",
     "mashumaro/core/meta/types/common.py",
+    "mashumaro/core/meta/helpers.py",
 ]
+# helpers.py is scanned only for the type-name renderer: it is the one place outside the four
+# generator modules where schema strings (Literal values, enum member names) become source text
+ONLY_FUNCS = {"mashumaro/core/meta/helpers.py": {"type_name", "_get_literal_values_str", "_get_args_str", "_typing_name"}}
 
 CODE, QUOTED, UNK, DATA = "CODE", "QUOTED", "UNK", "DATA"
 _ORD = {CODE: 0, QUOTED: 1, UNK: 2, DATA: 3}
 
-NAME_NOTE = ("identifier by construction (dataclass / named-tuple field names are checked by Python); "
-             "enum member names are NOT checked for the functional Enum API: finding C16/literal-enum-member-name")
+NAME_NOTE = "identifier by construction (dataclass / named-tuple field names are checked by Python)"
 
 
 class Site:
@@ -147,6 +153,7 @@ PARAM_RULES = {
     "flag": code("flag name constant"), "kw_arg": code("flag name constant"), "option": code("option name constant"),
     "method": code("method name"), "typ": None, "default": None,
     "cache_name": code("cache attribute name"), "field_type_name": code("type name identifier"),
+    "typ_name": code("typing construct name constant"), "module_name": code("module name (names: C17)"),
 }
 
 # (function, parameter) -> rule; wins over PARAM_RULES
@@ -172,14 +179,16 @@ ATTR_RULES = {
     "packer": code("generated sub-expression"), "unpacker": code("generated sub-expression"),
     "fname": code("dataclass field name: " + NAME_NOTE),
     "_variants_attr": code("attribute name chosen by the library"),
+    "__module__": code("module name (names: C17)"), "__qualname__": code("class qualname (names: C17)"),
 }
 
 # exact expressions
 EXPR_RULES = {
     "spec.field_ctx.name": code("dataclass field name: " + NAME_NOTE),
-    "literal_value.name": code("enum member name: " + NAME_NOTE),
     "spec.type": AV(UNK, note="type object formatted directly"),
     "ann.name": data("Annotated Alias name"),
+    "literal_value.name": data("enum member name"),
+    "value.name": data("enum member name"),
     "value.value": code("IntFlag.value (int; guarded by isinstance(value, enum.IntFlag))"),
 }
 
@@ -189,7 +198,9 @@ TYPED_DICT_FUNCS = {"pack_typed_dict", "unpack_typed_dict"}
 
 # callables outside the scanned files (or treated by summary): result
 CALL_RULES = {
-    "type_name": code("type name"), "random_hex": code("random hex"), "clean_id": code("identifier"),
+    # type_name: its body IS scanned (helpers.py); data enters only through its Literal branch
+    # (_get_literal_values_str), whose splice sites are rows of the table
+    "type_name": code("type name"), "get_generic_name": code("generic name"), "random_hex": code("random hex"), "clean_id": code("identifier"),
     "hash_type_args": code("hash"), "get_type_name_identifier": code("type name identifier"),
     "id": code("int"), "len": code("int"), "str": None, "int": code("int"),
     "get": None,  # dict.get / Registry.get: see call()
@@ -207,8 +218,39 @@ LINE_SINK_METHODS = {"add_line", "indent"}
 LINE_RECEIVERS = {"lines", "self.lines", "orig_lines", "self"}
 
 
+def guard_of(test) -> dict:
+    """{expr text: "full" | "partial"} for an `if` test that is a conjunction containing, for the SAME
+    expression X:  X.isidentifier()  and  not iskeyword(X)  [partial]  and a normal-form test
+    X.isascii() or normalize("NFKC", X) == X  [full].  Only a full guard makes a raw splice of X
+    admissible: an identifier that is no keyword and is in NFKC form is read back by the parser as the
+    same NAME (the parser NFKC-normalises identifiers: 'ﬁ' would become 'fi')."""
+    conj = test.values if isinstance(test, ast.BoolOp) and isinstance(test.op, ast.And) else [test]
+    ident, nokw, nf = set(), set(), set()
+    for c in conj:
+        if isinstance(c, ast.Call) and isinstance(c.func, ast.Attribute) and not c.args:
+            if c.func.attr == "isidentifier":
+                ident.add(ast.unparse(c.func.value))
+            if c.func.attr == "isascii":
+                nf.add(ast.unparse(c.func.value))
+        if isinstance(c, ast.UnaryOp) and isinstance(c.op, ast.Not) and isinstance(c.operand, ast.Call):
+            f = c.operand.func
+            if (getattr(f, "id", None) or getattr(f, "attr", None)) == "iskeyword" and len(c.operand.args) == 1:
+                nokw.add(ast.unparse(c.operand.args[0]))
+        if isinstance(c, ast.Compare) and len(c.ops) == 1 and isinstance(c.ops[0], ast.Eq):
+            for a, b in ((c.left, c.comparators[0]), (c.comparators[0], c.left)):
+                if isinstance(a, ast.Call) and (getattr(a.func, "id", None) or getattr(a.func, "attr", None)) == "normalize" \
+                        and len(a.args) == 2 and isinstance(a.args[0], ast.Constant) and a.args[0].value == "NFKC" \
+                        and ast.unparse(a.args[1]) == ast.unparse(b):
+                    nf.add(ast.unparse(b))
+    out = {}
+    for x in ident & nokw:
+        out[x] = "full" if x in nf else "partial"
+    return out
+
+
 class Scanner:
     def __init__(self):
+        self.guards: dict = {}
         self.sites: dict[tuple, Site] = {}
         self.summ: dict[str, AV] = {}          # function name -> return AV
         self.funcs: dict[str, list] = {}       # name -> [(file, FunctionDef)]
@@ -348,8 +390,24 @@ class Scanner:
                     else:
                         trail.append(s)
                 res_o = max(res_o, QUOTED, key=_ORD.get)
+            elif av_f.o == DATA and self.guards.get(expr) == "full":
+                # raw splice of an identifier: admissible only under the full guard (see guard_of)
+                s = self.site(en, expr, "KGuardedIdent", av_f.note)
+                if before:
+                    s.befores.add(before)
+                else:
+                    lead.append(s)
+                if after:
+                    s.afters.add(after)
+                else:
+                    trail.append(s)
+                self.counts[DATA] += 1
+                res_o = max(res_o, QUOTED, key=_ORD.get)
             elif av_f.o == DATA:
-                s = self.site(en, expr, "KRaw", av_f.note)
+                why = av_f.note
+                if self.guards.get(expr) == "partial":
+                    why = "guard lacks NFKC/ASCII normal-form test: " + why
+                s = self.site(en, expr, "KRaw", why)
                 s.befores.add(before or "\x01")
                 s.afters.add(after or "\x01")
                 self.counts[DATA] += 1
@@ -556,6 +614,10 @@ class Scanner:
                 return self.join(n, f.value, base, args[0])
             if fname == "format":
                 m = flat(base)
+                if m.o in (QUOTED, DATA):
+                    st = self.site(n, ast.unparse(n)[:80], "KUnknown",
+                                   "str.format applied to text that contains data (braces in the data are re-interpreted)")
+                    st.befores.add("\x01")
                 for a in list(args) + list(kws.values()):
                     a = flat(a)
                     if a.o == DATA:
@@ -743,7 +805,10 @@ class Scanner:
         elif isinstance(s, ast.If):
             self.ev(s.test, env)
             e1, e2 = dict(env), dict(env)
+            saved_guards = self.guards
+            self.guards = {**saved_guards, **guard_of(s.test)}
             self.block(s.body, e1)
+            self.guards = saved_guards
             self.block(s.orelse, e2)
             env.clear()
             env.update(e1)
@@ -842,6 +907,8 @@ class Scanner:
                 self.func = "<module>"
                 env: dict = {}
                 for s in t.body:
+                    if f in ONLY_FUNCS and not (isinstance(s, ast.FunctionDef) and s.name in ONLY_FUNCS[f]):
+                        continue
                     if isinstance(s, (ast.FunctionDef, ast.AsyncFunctionDef)):
                         self.function(s, env)
                     elif isinstance(s, ast.ClassDef):
@@ -849,7 +916,17 @@ class Scanner:
         # every FormattedValue of the files must have been visited (fail closed)
         self.total_fv = 0
         for f, t in trees.items():
-            for n in ast.walk(t):
+            scope = [t] if f not in ONLY_FUNCS else [x for x in t.body if isinstance(x, ast.FunctionDef) and x.name in ONLY_FUNCS[f]]
+            if f in ONLY_FUNCS:
+                # fail closed: no other function of the file may touch a DATA source
+                for x in t.body:
+                    if isinstance(x, ast.FunctionDef) and x.name not in ONLY_FUNCS[f] and x.name != "get_literal_values":
+                        for y in ast.walk(x):
+                            if (isinstance(y, ast.Name) and y.id in ("get_literal_values", "_get_literal_values_str")) or \
+                               (isinstance(y, ast.Attribute) and y.attr in ("aliases", "alias")):
+                                self.file, self.func = f, x.name
+                                self.site(y, x.name, "KUnknown", "unscanned function touches a DATA source").befores.add("\x01")
+            for n in (y for sc_ in scope for y in ast.walk(sc_)):
                 if isinstance(n, ast.FormattedValue):
                     self.total_fv += 1
                     k = (f, n.value.lineno, n.value.col_offset)
